@@ -393,6 +393,7 @@ def run(F, R, tier):
     R.floor("C04.R6", n_sites, 7, "build_request/get call sites outside hyper_client")
 
     canonical_form_table(F, R)
+    query_pairs_contract(F, R)
 
     # ------------------------------------------------------------------ R7 overwriting keyed inserts
     for name in ("headers_to_canonicalized_string", "get_path_and_canonicalized_parameters"):
@@ -414,6 +415,49 @@ def run(F, R, tier):
                     "request items are accumulated with an overwriting HashMap::insert (displaced value discarded): repeated %s "
                     "collapse to one in the signed string while the host receives all of them"
                     % ("header names" if "headers" in name else "query pairs with equal key+value concatenation"))
+
+
+def query_pairs_contract(F, R):
+    """helper contract (C04.R7): query_pairs() keeps every `name[=value]` item of the query; the only item it may skip is one with an
+    empty name. Both canonicalisation (C04) and rule matching (C02) read the request's query through it."""
+    fn = R.anchor(HC + "query_pairs", "C04.R7")
+    if not fn:
+        return
+    B = mir.Body(fn, F)
+    pushes = [c[0] for c in B.calls_named("Vec::push")]
+    nexts = [c for c in B.calls_named("Iterator::next") if "Split<" in str(B.locals[c[3]["args"][0]["p"]["l"]]["ty"]) and
+             "SplitN" not in str(B.locals[c[3]["args"][0]["p"]["l"]]["ty"])]
+    seps = set()
+    for bi, w, r, t in B.calls_named("str::split", "split", "str::splitn", "splitn"):
+        for a in t["args"][1:]:
+            if a["k"] == "const":
+                seps.add((q.base_name(w).rsplit("::", 1)[-1], a.get("val")))
+    ok_sep = seps == {("split", ord("&")), ("splitn", 2), ("splitn", ord("="))}
+    ok_iter = False
+    detail = "pushes %d, outer next() %d" % (len(pushes), len(nexts))
+    if len(pushes) == 1 and len(nexts) == 1:
+        nb = nexts[0][0]
+        dl = nexts[0][3]["dest"]["l"]
+        some_edges = set()
+        for sb in B.switch_blocks():
+            e = B.cond(sb)
+            if e[0] == "discr" and e[1]["l"] == dl and not e[1]["p"]:
+                some_edges |= {(sb, tg) for tg, lab in B.succ(sb) if lab == mir.STD_VARIANTS["Some"]}
+        empties = [(tr, fa) for sb, tr, fa, cb, args in q.bool_call_edges(B, ["is_empty"])]
+        hdr = q.outer_loop_header(B, pushes[0])
+        if some_edges and len(empties) == 1 and hdr is not None:
+            starts = [e[1] for e in some_edges]
+            p = B.path(starts, [hdr], cut_blocks=pushes, cut_edges=[empties[0][0]])
+            ok_iter = p is None
+            detail = "an iteration can skip the push without the empty-name test" if p else "ok"
+    R.check(ok_sep and ok_iter, "C04.R7", "C04.R7:%s:contract" % fn["id"], "%s:%s" % (fn["file"], fn["line"]),
+            "query_pairs: items split at '&', name/value at the first '=', every item with a non-empty name is pushed",
+            "query_pairs changed: separators %s; %s" % (sorted(map(str, seps)), detail))
+    for bi, w, r, t in B.calls_named("Vec::dedup", "Vec::dedup_by", "Vec::dedup_by_key", "Vec::truncate", "Vec::pop", "Vec::remove", "Vec::swap_remove",
+                                     "Vec::retain", "Vec::drain", "Iterator::take", "Iterator::skip", "Iterator::filter", "Iterator::step_by",
+                                     "Itertools::unique", "Itertools::dedup", "HashMap::insert", "BTreeMap::insert"):
+        R.fail("C04.R7", R.key("C04.R7", fn["id"], "item-dropping-call"), q.where(B, bi),
+               "query_pairs calls %s, which can drop query items" % q.base_name(w))
 
 
 def canonical_form_table(F, R):
